@@ -2,6 +2,7 @@
 //! C31: every optimizer rule returns a well-formed plan.
 //! Case: {"kind":"rules","src":"sqlgen"|"joins","layout":"mem0"|"mem"|"pq","sql":text, tables: sqlgen ("cat","tables") or optlab ("otables"), "tags":[..]}
 //! Impl: {"bound":Plan|{"err"}, "alone":[{"rule":name,"after":Plan|"same"|{"err"}}…]   — `rule.optimize(&bound)` of each production rule alone
+//!        (plus "SubqueryDecorrelation>SemiJoinPushdown": SemiJoinPushdown alone on the decorrelated plan, when decorrelation changed the plan)
 //!        "steps":[{"rule":name,"iter":k,"after":Plan|{"err"}}…]                          — the production fixpoint rule by rule (only steps that changed the plan)
 //!        "final":Plan|{"err"}, "trace_agrees":bool                                       — `Optimizer::new()[.with_table_statistics]` and whether the stepwise replay reached it
 //!        "runs":[{"of":"bound"|"final"|"alone:<rule>","out":{"width":n,"rows":n}|{"err":kind,"msg"}|{"panic"}}…]}
@@ -76,6 +77,15 @@ pub fn observe(provs: &Provs, sql: &str, layout: &str) -> Value {
         let after = match &r { Ok(p) if dbg(p) == dbg(&b) => json!("same"), _ => plan_or_err(&r) };
         if let Ok(p) = &r { if dbg(p) != dbg(&b) && runs.len() < 7 { runs.push(json!({"of": format!("alone:{}", name), "out": run_summary(provs, p)})); } }
         alone.push(json!({"rule": name, "after": after}));
+    }
+    // SemiJoinPushdown alone on the decorrelated plan (on the bound plan the subquery predicates are still expressions)
+    if let Ok(d) = caught(&|| apply_rule_once("SubqueryDecorrelation", &stats, &b).unwrap()) {
+        if dbg(&d) != dbg(&b) {
+            let r2 = caught(&|| apply_rule_once("SemiJoinPushdown", &stats, &d).unwrap());
+            let after = match &r2 { Ok(p) if dbg(p) == dbg(&d) => json!("same"), _ => plan_or_err(&r2) };
+            if let Ok(p) = &r2 { if dbg(p) != dbg(&d) { runs.push(json!({"of": "alone:SubqueryDecorrelation>SemiJoinPushdown", "out": run_summary(provs, p)})); } }
+            alone.push(json!({"rule": "SubqueryDecorrelation>SemiJoinPushdown", "after": after}));
+        }
     }
     // the production fixpoint, rule by rule (mirrors Optimizer::optimize_with_rules: loop rules until no change, max 10 iterations; PackedJoinKeys once after)
     let mut steps = vec![];
@@ -187,7 +197,12 @@ pub fn main(o: &Opts) {
     let mut cat = gen_catalog(&mut r, &copts);
     for n in 0..o.cases {
         let layout = match n % 4 { 0 => "mem", 2 => "mem0", _ => "pq" };
-        let case = if n % 5 < 3 {
+        let case = if matches!(n % 20, 1 | 7 | 12) {
+            // 15 %: shared column names / self-joins under subquery predicates (SemiJoinPushdown must honour the qualifier)
+            let lay = *r.pick(&["mem", "mem0", "pq"]);
+            let (ts, sql, tags) = crate::fams::fam_c03::gen_shared_semi(&mut r);
+            json!({"kind": "rules", "src": "shared", "layout": lay, "sql": sql, "otables": tables_json(&ts), "tags": tags})
+        } else if n % 5 < 3 {
             if n % 6 == 0 { cat = gen_catalog(&mut r, &copts); }
             let mut qr = r.fork();
             let g = Gen::new(&mut qr, &cat, &gopts).generate(n);
